@@ -14,6 +14,7 @@ type driver struct {
 	cmd *exec.Cmd
 	in  io.WriteCloser
 	out *bufio.Reader
+	all map[string]string // last printed content of every row ("b y" -> cells)
 }
 
 func startDriver(path, widths string) (*driver, error) {
@@ -46,12 +47,24 @@ func (d *driver) send(line string) error {
 type modelObs struct {
 	lines map[string]string // G M A V E W -> whole line
 	rows  map[string]string // "b y" -> cells
+	prev  map[string]string // rows as they were before this block (for rows the block does not print)
 	tags  []string
 	X     string
 }
 
 func (d *driver) readBlock() (modelObs, error) {
-	o := modelObs{lines: map[string]string{}, rows: map[string]string{}}
+	o := modelObs{lines: map[string]string{}, rows: map[string]string{}, prev: map[string]string{}}
+	if d.all == nil {
+		d.all = map[string]string{}
+	}
+	for k, v := range d.all {
+		o.prev[k] = v
+	}
+	defer func() {
+		for k, v := range o.rows {
+			d.all[k] = v
+		}
+	}()
 	for {
 		line, err := d.out.ReadString('\n')
 		if err != nil {
